@@ -6,6 +6,8 @@
 From Coq Require Import List Arith NArith Bool.
 From BP Require Import Base.Field Model.Codec Model.Transcript Model.Verifier Model.VerifyTop Proofs.TranscriptP Proofs.VerifyTopP.
 Import ListNotations.
+From BP Require Import Model.Spec Model.RangeSpec Proofs.BindingP.
+Local Close Scope N_scope.
 
 Theorem C05_absorbed_component_changes_log : forall s s' p p' l,
   List.length (p_li p) = List.length (p_ri p) -> List.length (p_li p') = List.length (p_ri p') ->
@@ -27,3 +29,42 @@ Theorem C05_disagreement_refused : forall (K : Fld) ofN mode first rest ws z,
   fst (verify_chunk K ofN mode (first :: rest) ws z) = Err.
 Proof. exact chunk_refuses_disagreement. Qed.
 Print Assumptions C05_disagreement_refused.
+
+(** response scalars: the proof transcript does not absorb r1, s1, d1 (C04: the challenges stay the same),
+    and over linearly independent generators (a hypothesis: true by construction of the free-module group,
+    the discrete-log assumption on Ristretto) an accepted proof with r1, s1 or d1 changed is REFUSED by the
+    textbook equation — hence, by C02_verifier_accepts_iff, by the optimised verifier for every non-zero weight. *)
+Definition independent (K : Fld) (M : Mod K) (H : M) (Gb G Hs : list M) : Prop :=
+  forall cs, length cs = length (basis K M H Gb G Hs) -> msm cs (basis K M H Gb G Hs) = v0 M -> Forall (fun c => c = f0 K) cs.
+
+Theorem C05_r1_binding : forall (K : Fld), FldOk K -> forall (M : Mod K), ModOk K M -> forall (H : M) (Gb G Hs : list M),
+  independent K M H Gb G Hs ->
+  forall bits Vs promises A A1 B LR (y z e : K) es,
+  length G = 2 ^ length es -> length Hs = 2 ^ length es -> length LR = length es ->
+  Forall (fun c => c <> f0 K) es -> e <> f0 K ->
+  forall r1 s1 d1 delta, delta <> f0 K -> length d1 = length Gb ->
+  accepts K M H Gb G Hs bits Vs promises A A1 B LR y z e es r1 s1 d1 ->
+  ~ accepts K M H Gb G Hs bits Vs promises A A1 B LR y z e es (fadd K r1 delta) s1 d1.
+Proof. intros K Kok M Mok H Gb G Hs Hi. exact (r1_binding K Kok M Mok H Gb G Hs Hi). Qed.
+Print Assumptions C05_r1_binding.
+
+Theorem C05_s1_binding : forall (K : Fld), FldOk K -> forall (M : Mod K), ModOk K M -> forall (H : M) (Gb G Hs : list M),
+  independent K M H Gb G Hs ->
+  forall bits Vs promises A A1 B LR (y z e : K) es,
+  length G = 2 ^ length es -> length Hs = 2 ^ length es -> length LR = length es ->
+  Forall (fun c => c <> f0 K) es -> e <> f0 K ->
+  forall r1 s1 d1 delta, delta <> f0 K -> length d1 = length Gb ->
+  accepts K M H Gb G Hs bits Vs promises A A1 B LR y z e es r1 s1 d1 ->
+  ~ accepts K M H Gb G Hs bits Vs promises A A1 B LR y z e es r1 (fadd K s1 delta) d1.
+Proof. intros K Kok M Mok H Gb G Hs Hi. exact (s1_binding K Kok M Mok H Gb G Hs Hi). Qed.
+Print Assumptions C05_s1_binding.
+
+Theorem C05_d1_binding : forall (K : Fld), FldOk K -> forall (M : Mod K), ModOk K M -> forall (H : M) (Gb G Hs : list M),
+  independent K M H Gb G Hs ->
+  forall bits Vs promises A A1 B LR (y z e : K) es,
+  length G = 2 ^ length es -> length Hs = 2 ^ length es -> length LR = length es ->
+  forall r1 s1 d1 d1', length d1 = length Gb -> length d1' = length Gb -> d1 <> d1' ->
+  accepts K M H Gb G Hs bits Vs promises A A1 B LR y z e es r1 s1 d1 ->
+  ~ accepts K M H Gb G Hs bits Vs promises A A1 B LR y z e es r1 s1 d1'.
+Proof. intros K Kok M Mok H Gb G Hs Hi. exact (d1_binding K Kok M Mok H Gb G Hs Hi). Qed.
+Print Assumptions C05_d1_binding.
